@@ -165,7 +165,7 @@ pub fn run(tier: Tier) -> Run {
         }
     }
     // ---- per method (vcalls --c12): every one of the 1149 instruction-emitting methods with no block selected
-    let vcalls = crate::report::verif_root().join("harness").join("target").join("release").join("vcalls");
+    let vcalls = std::env::current_exe().ok().and_then(|e| e.parent().map(|d| d.join("vcalls"))).filter(|v| v.exists()).unwrap_or_else(|| crate::report::verif_root().join("harness").join("target").join("release").join("vcalls"));
     match std::process::Command::new(&vcalls).arg("--c12").output() {
         Ok(o) if o.status.success() => match serde_json::from_slice::<serde_json::Value>(&o.stdout) {
             Ok(d) => {
